@@ -53,6 +53,86 @@ def interleave_worker(args):
     return out
 
 
+def shared_state_worker(args):
+    """the crate declares thread-local state: two live iterators (different flops, the same small range, symbolic positions) in ONE machine
+    with the thread-local storage carried from A's call into B's call; B's showdown must still carry, for every player, the evaluation of
+    that player's OWN seven cards (the evaluator is one uninterpreted function of the seven cards)."""
+    src, mir, seed = args
+    import z3, mirx, copy, random
+    import itermodel
+    from mlib import load_lib, decide, sat_model, card_key, conc_card_name, f32_bits, mk_card
+    t0 = time.time()
+    out = dict(error=None, bad=[], pairs=0, queries=0)
+    try:
+        rnd = random.Random(seed)
+        deckc = [(r, s_) for r in range(13) for s_ in range(4)]
+        flop_a = rnd.sample(deckc, 3)
+        rest = [c for c in deckc if c not in flop_a]
+        flop_b = rnd.sample(rest, 3)
+        free = [c for c in rest if c not in flop_b]
+        c4 = rnd.sample(free, 4)
+        rng = [[(c4[0], c4[1])]]       # one combo: the odometer index is then concrete and so are the keys of any memo table
+        MH = z3.Function('MH', *([z3.BitVecSort(16)] * 7 + [z3.BitVecSort(16)]))
+        M = load_lib(src, 'dev', mir)
+        M.deadline = time.time() + 900
+        SA = itermodel.build_from_ctor(M, src, flop_a, rng, suffix='_A')
+        SB = itermodel.build_from_ctor(M, src, flop_b, rng, suffix='_B')
+        if SA.ctor_panic or SB.ctor_panic:
+            out['error'] = 'constructor panics'
+            return out
+        SA, outsA = itermodel.run_step(M, src, 1, prebuilt=SA, hand_fn=MH)
+        itermodel.showdown_layout(src, SB)
+        firsts = [o for o in outsA if o['kind'] == 'Some'][:4]
+        out['a_paths'] = len(outsA)
+        for oa in firsts:
+            SBx = copy.copy(SB)
+            SBx.cons = list(SB.cons)
+            Sx, outsB = itermodel.run_step(M, src, 1, prebuilt=SBx, hand_fn=MH, tls=oa.get('tls'), extra_cons=list(oa['pc']))
+            for ob in outsB:
+                out['pairs'] += 1
+                if ob['kind'] == 'PANIC':
+                    c, m = sat_model(ob['pc'])
+                    if c == z3.sat:
+                        out['bad'].append(dict(what='panic in the second evaluator after the first ran: ' + str(ob['value']), model=None))
+                    continue
+                if ob['kind'] != 'Some':
+                    continue
+                sd = ob['value']
+                board = sd.f[SB.sd_idx['board']].items
+                players = sd.f[SB.sd_idx['players']].items
+                props = []
+                for pl in players:
+                    hc = pl.f[SB.sp_idx['hole_cards']]
+                    hand = pl.f[SB.sp_idx['hand']].f[0].z()
+                    props.append(hand == MH(card_key(hc.f[0]), card_key(hc.f[1]), *[card_key(b_) for b_ in board]))
+                c, m, dt = decide(ob['pc'], z3.And(*props), 300)
+                out['queries'] += 1
+                if c == 'sat':
+                    def pos(S_):
+                        return f"{m.eval(S_.turn, model_completion=True).as_long()},{m.eval(S_.river, model_completion=True).as_long()}"
+                    rs = 'c:' + ','.join(f"{conc_card_name(sl[0].f[0])}{conc_card_name(sl[0].f[1])}=3f800000" for sl in SA.range_combos[0])
+                    out['bad'].append(dict(what='a showdown of the second evaluator carries a hand that is not the evaluation of the player\'s own seven cards',
+                                           flop_a=''.join(conc_card_name(mk_card(*c_)) for c_ in flop_a), flop_b=''.join(conc_card_name(mk_card(*c_)) for c_ in flop_b),
+                                           pos_a=pos(SA), pos_b=pos(SB), range=rs))
+                elif c != 'unsat':
+                    out['error'] = 'solver ' + c
+        out['stmts'] = M.stats['stmts']
+    except Exception as e:
+        import traceback
+        out['error'] = ('unsupported: ' + str(e)) if isinstance(e, mirx.Unsupported) else ('internal error in the check machinery: ' + repr(e) + ' | ' + traceback.format_exc()[-600:])
+    out['wall'] = round(time.time() - t0, 1)
+    return out
+
+
+def native_interleave_bad(bins, b):
+    """two evaluators with these flops and this range, positioned where the witness says, iterated alternately vs alone"""
+    def win(p):
+        t, r = [int(x) for x in p.split(',')]
+        return f'{t},{r},48,49'
+    rc, kv, raw = replay(bins, 'debug', ['interleave', '40', b['flop_a'], win(b['pos_a']), b['flop_b'], win(b['pos_b']), b['range'], '--', b['range']], timeout=300)
+    return kv.get('diff', ''), raw
+
+
 def main():
     a, seed = tier_and_seed(sys.argv[1:])
     t0 = time.time()
@@ -69,6 +149,12 @@ def main():
         shutil.copy(os.path.join(src, 'Cargo.lock'), os.path.join(d, 'Cargo.lock'))
         rc, o, dt = run(['cargo', 'check', '--offline', '-q'], cwd=d, env=dict(ENV, CARGO_TARGET_DIR=os.path.join(SCRATCH_ROOT, 'target-replay')), timeout=900)
         if a.replay:
+            cex = json.load(open(a.replay))
+            if cex.get('flop_a'):
+                nb, raw = native_interleave_bad(replay_build(src, ('debug',)), cex)
+                if not nb:
+                    nb, raw = native_interleave_bad(replay_build(src, ('debug',)), dict(cex, pos_a='0,1', pos_b='0,1'))
+                print(raw); print('native verdict:', nb or 'ok'); sys.exit(1 if nb else 0)
             print(o[-2000:]); sys.exit(1 if rc != 0 else 0)
         if rc == 0:
             obs.append(Obligation('public-types-are-Send+Sync', 'holds', 'FlopExhaustiveEvaluator, its iterator, Showdown, HandRange, HandRangeToken, CardPair, RankPair, MadeHand, Card: the assertion crate type-checks; an evaluator can be moved into a spawned thread', queries=10))
@@ -81,6 +167,22 @@ def main():
         statics, tls, interior, raw = audit(mir)
         detail = f'{len(statics)} static items, {len(tls)} thread-local uses, interior-mutable types mentioned: {interior or "none"}, raw-pointer borrows: {raw}'
         shared = bool(statics or tls)
+        # ---- shared state declared by the crate (static / thread-local): decide the interleaving with the storage carried between the calls
+        if shared:
+            bins = replay_build(src, ('debug',))
+            sr = shared_state_worker((src, mir, seed))
+            if sr['error']:
+                obs.append(Obligation('interleaving-with-shared-state', 'inconclusive', sr['error'] + ' | audit: ' + detail))
+            elif sr['bad']:
+                b = ([x for x in sr['bad'] if x.get('flop_a')] or sr['bad'])[0]
+                nb, raw = native_interleave_bad(bins, b) if b.get('flop_a') else ('', '')
+                # the witness positions need not be reachable together natively; also try a run from the start of both enumerations
+                if not nb and b.get('flop_a'):
+                    nb, raw = native_interleave_bad(bins, dict(b, pos_a='0,1', pos_b='0,1'))
+                obs.append(Obligation('interleaving-with-shared-state', 'violated', f"{b['what']} (flops {b.get('flop_a')} / {b.get('flop_b')}, range {b.get('range')}); native: {nb or 'not reproduced'}",
+                                      cex=dict(b, native=nb, reproduced=bool(nb)), key='shared-state', queries=sr['queries']))
+            else:
+                obs.append(Obligation('interleaving-with-shared-state', 'holds', f"{sr['pairs']} path pairs (A.next() then B.next() with the thread-local storage carried over): every hand is the evaluation of the player's own seven cards", queries=sr['queries']))
         # ---- interleavings (solver-decided through the step harness)
         r = interleave_worker((src, mir))
         if r['error']:
@@ -88,9 +190,11 @@ def main():
         elif r['differ']:
             obs.append(Obligation('interleaved-next-calls-independent', 'violated', '; '.join(r['differ'][:3]) + ' | audit: ' + detail,
                                   cex=dict(reproduced=False, audit=detail), key='shared-state'))
-        elif shared:
+        elif shared and not any(o.name == 'interleaving-with-shared-state' and o.status != 'inconclusive' for o in obs):
             obs.append(Obligation('interleaved-next-calls-independent', 'inconclusive',
-                                  'the crate now declares static / thread-local items that Engine M does not model as shared cells: ' + '; '.join(statics[:3] + tls[:2])))
+                                  'the crate now declares static / thread-local items that Engine M could not model as shared cells: ' + '; '.join(statics[:3] + tls[:2])))
+        elif shared:
+            pass
         else:
             obs.append(Obligation('interleaved-next-calls-independent', 'holds',
                                   f"schedule B.next(); A.next() vs A.next() alone from fully symbolic states: {r['compared']} outcomes identical; no memory is shared between calls ({detail})",
